@@ -189,7 +189,9 @@ namespace details {
         static notification_data find_notification_data( const void* value )
         {
             notification_data result;
-            for_< characteristics_only_with_cccd >::each( attribute_value( result, value ) );
+            // the index stored in the result is the index into the list sorted by priority,
+            // as this is the index used by the notification queue and by find_notification_data_by_index()
+            for_< characteristics_sorted_by_priority >::each( attribute_value( result, value ) );
 
             return result;
         }
